@@ -205,6 +205,28 @@ func runC02(c *Ctx) {
 			default:
 				c.R.Ok(rule, core.FuncName(qs)+"/order", cfg, p.Pos(first.Pos()), "connection-level settings first, then query-level")
 			}
+			// every setting of both lists is forwarded: the append runs on every iteration
+			nApp := 0
+			for _, b := range qs.Blocks {
+				for _, in := range b.Instrs {
+					cl, ok := in.(*ssa.Call)
+					if !ok {
+						continue
+					}
+					if bi, ok := cl.Call.Value.(*ssa.Builtin); !ok || bi.Name() != "append" || !core.InLoop(cl) {
+						continue
+					}
+					nApp++
+					if w := core.SkippedInLoop(cl); len(w) > 0 {
+						c.R.Bad(rule, core.FuncName(qs)+"/all", cfg, p.Pos(cl.Pos()), "an iteration over the settings can skip the append: some of the caller's settings (e.g. a query-level setting whose key also exists at connection level) never reach the Query packet", p.TrailString(w[0])...)
+					} else {
+						c.R.Ok(rule, sprintf("%s/all#%d", core.FuncName(qs), nApp), cfg, p.Pos(cl.Pos()), "appended on every iteration")
+					}
+				}
+			}
+			if nApp == 0 {
+				c.R.Unk(rule, core.FuncName(qs)+"/all", cfg, p.Pos(qs.Pos()), "no append inside a loop found in querySettings")
+			}
 		}
 		// Data packet header carries the block's table name
 		okTN := false
